@@ -111,7 +111,7 @@ func (r *Runner) execProto(cmd string, a []string) string {
 // with every store kind gives the same mapping, bins and zero weight, bit for bit.
 func (r *Runner) pbChk(e *skEntry) string {
 	s := e.sk()
-	before := r.sketchObsQuiet(e)
+	before := r.obsBefore(e)
 	mem := s.ToProto()
 	mb, sb, err := protoBytes(s)
 	if err != nil {
